@@ -50,9 +50,16 @@ func genC05(t *rapid.T) (C05Case, bool) {
 		next := cur.Clone()
 		applied := 0
 		want := rapid.IntRange(1, 2).Draw(t, "editsPerStep")
-		for tries := 0; tries < 10 && applied < want; tries++ {
+		for tries := 0; tries < 16 && applied < want; tries++ {
 			e := edits[rapid.IntRange(0, len(edits)-1).Draw(t, "edit")]
+			if (e.Name == "add-optional-step" || e.Name == "add-alias") && rapid.IntRange(0, 3).Draw(t, "keepTrivialEdit") != 0 {
+				// always applicable and converts nothing: keep them from crowding out the edits that do
+				continue
+			}
 			if w, ok := e.Apply(t, next, model.NewEnv(next)); ok {
+				if nc := model.LastNumericChange(); nc != "" && e.Name == "change-numeric-primitive" {
+					w += " (" + nc + ")"
+				}
 				c.Edits = append(c.Edits, fmt.Sprintf("v%d->v%d:%s@%s", s, s+1, e.Name, w))
 				applied++
 			}
@@ -265,6 +272,16 @@ func TestC05(t *testing.T) {
 		if !ok {
 			rec.Class("inapplicable")
 			return
+		}
+		for _, e := range c.Edits {
+			name := e[strings.Index(e, ":")+1:]
+			if i := strings.Index(name, "@"); i >= 0 {
+				name = name[:i]
+			}
+			rec.Class("edit:" + name)
+			if strings.Contains(e, "size") && strings.Contains(e, "->") && name == "change-numeric-primitive" {
+				rec.Class("edit:change-numeric-primitive involving size")
+			}
 		}
 		rec.Sample(map[string]any{"edits": c.Edits, "current_model": core.Trunc(model.EmitPackage(c.Versions[len(c.Versions)-1], model.EmitOptions{}).Text(), 500)})
 		report(rt, rec, checkC05(c), c)
